@@ -12,7 +12,8 @@ EXTENDS PacketAPI, Json, SequencesExt
 
 CONSTANTS T,        \* packet type 1..15
           DEPTH,    \* number of setter calls per history
-          SLICE, SLICES   \* this process emits the leaves whose first call index % SLICES = SLICE
+          SLICE, SLICES,  \* this process emits the leaves whose first call index % SLICES = SLICE
+          WRITES          \* TRUE: histories may contain WriteTo between calls
 
 VARIABLES hist, first
 
@@ -82,8 +83,14 @@ Step(i) == /\ Call(1, AlphaSeq[i][1], AlphaSeq[i][2])
            /\ hist' = Append(hist, [op |-> "Call", h |-> 1, m |-> AlphaSeq[i][1], args |-> AlphaSeq[i][2]])
            /\ first' = IF hist = <<>> THEN i ELSE first
 
+(* a read-only operation in the middle of a history: the packet is written, the model state stays *)
+Write == /\ hist # <<>> /\ hist[Len(hist)].op # "WriteTo"
+         /\ hist' = Append(hist, [op |-> "WriteTo", h |-> 1])
+         /\ UNCHANGED <<pool, first>>
+
 Next == /\ Len(hist) < DEPTH
-        /\ \E i \in 1..Cardinality(Alpha) : (hist = <<>> => i % SLICES = SLICE) /\ Step(i)
+        /\ \/ \E i \in 1..Cardinality(Alpha) : (hist = <<>> => i % SLICES = SLICE) /\ Step(i)
+           \/ (WRITES /\ Len(hist) < DEPTH - 1 /\ Write)
 
 Spec == Init /\ [][Next]_<<pool, hist, first>>
 
@@ -99,13 +106,14 @@ Touched(m) == IF m \in DOMAIN PlainKey THEN {PlainKey[m]}
               ELSE IF m \in {"AddFilters", "AddFilter"} THEN {"Filters"}
               ELSE {"ReasonCodes"}
 FrameCondition ==
-  [][Len(hist') > Len(hist) =>
+  [][Len(hist') > Len(hist) /\ hist'[Len(hist')].op = "Call" =>
        LET m == hist'[Len(hist')].m IN
        /\ \A x \in DOMAIN pool[1].o \ Touched(m) : pool'[1].o[x] = pool[1].o[x]
        /\ \A g \in DOMAIN pool \ {1} : pool'[g] = pool[g]]_<<pool, hist, first>>
 
 LastWriteWins ==
-  hist # <<>> => LET c == hist[Len(hist)] IN
+  hist # <<>> /\ hist[Len(hist)].op = "Call" =>
+                 LET c == hist[Len(hist)] IN
                  c.m \in DOMAIN PlainKey => pool[1].o[PlainKey[c.m]] = c.args[1]
 
 Program ==
